@@ -101,6 +101,35 @@ theorem recorded_in_stream (names : List (List Char)) (nm text : List Char)
   rw [lineAct_prefixLine names nm text hm hsep hn ht]
   simp
 
+/-! ### the life of a reference server, in phases
+
+`runTestCasesForServer` reads the server's stderr until the server has ENDED (`<-refServerFinished`
+after `serverProcess.abort()` and `serverProcess.result()`): what the reader is given is everything the
+server printed in all four phases of its life. -/
+
+structure Life where
+  /-- after its start, before the first request of the batch is handed to the client -/
+  beforeFirst : List (List Char)
+  /-- while the batch's requests are being answered -/
+  during : List (List Char)
+  /-- after the last response of the batch has arrived, before the runner's abort -/
+  afterLast : List (List Char)
+  /-- between the runner's abort and the end of the server (its graceful shutdown: handlers still
+  running, requests finished late, trailers) -/
+  shutdown : List (List Char)
+
+def Life.lines (l : Life) : List (List Char) := l.beforeFirst ++ l.during ++ l.afterLast ++ l.shutdown
+
+/-- the stream the runner's reader is given: the pipe stays open until the server has ended -/
+def Life.stderr (l : Life) : List Char := streamOf l.lines
+
+/-- what a reader would be given whose pipe is closed at the abort (NOT the runner) -/
+def Life.stderrUntilAbort (l : Life) : List Char := streamOf (l.beforeFirst ++ l.during ++ l.afterLast)
+
+theorem streamOf_split (a : List (List Char)) (ln : List Char) (b : List (List Char)) :
+    streamOf (a ++ ln :: b) = streamOf a ++ (ln ++ ['\n']) ++ streamOf b := by
+  simp [streamOf, List.append_assoc]
+
 end ConfModel.FeedbackLine
 
 namespace ConfModel.RunLoop
